@@ -4,6 +4,7 @@ use crate::exec::{OpRecord, World};
 use crate::world::{Ev, Rf};
 
 pub mod c06;
+pub mod c08;
 pub mod c10;
 
 /// A frame handed to the radio (recorded at call time, whether or not the call then failed).
